@@ -71,10 +71,42 @@ impl Oracle for ConstPrf {
     }
 }
 
+/// Degenerate randomness of the hash-based join: the PRF value that holds the three Cuckoo/simple hash
+/// functions (a bit array [3, m, 128]) is answered by the harness - pseudo-random bits derived from (key, counter,
+/// seed), with hash function `1` overwritten by hash function `0` (pair index 0: functions 0,1; 1: 0,2; 2: 1,2).
+/// Every key is then sent to the same cell by two of the three functions: the event "a matched row is found in
+/// two of the switched Cuckoo tables" (probability about 2/(128 rows) per matched row with real randomness) happens
+/// for every matched row. Both parties holding the key get the same answer (function of key and counter only).
+pub struct HashCollide(pub usize, pub u64);
+impl Oracle for HashCollide {
+    fn prf(&mut self, _p: usize, _i: usize, k: &[u8], iv: u64, t: &Type) -> Option<Value> {
+        if let Type::Array(shape, st) = t {
+            if *st == ciphercore_base::data_types::BIT && shape.len() == 3 && shape[0] == 3 && shape[2] == 128 {
+                let mut h = self.1 ^ iv.wrapping_mul(0x9E3779B97F4A7C15);
+                for b in k {
+                    h = (h ^ *b as u64).wrapping_mul(0x100000001B3);
+                }
+                let mut sm = SplitMix(h);
+                let per = (shape[1] * shape[2]) as usize;
+                let mut bits: Vec<u128> = (0..3 * per).map(|_| (sm.next() & 1) as u128).collect();
+                let (a, b) = [(0usize, 1usize), (0, 2), (1, 2)][self.0 % 3];
+                for i in 0..per {
+                    bits[b * per + i] = bits[a * per + i];
+                }
+                return Some(vals::arr_value(&bits, st));
+            }
+        }
+        None
+    }
+}
+
 pub fn tape_by_name(name: &str) -> Box<dyn Oracle> {
     match name {
         "prf-zero" => Box::new(ConstPrf(0)),
         "prf-ones" => Box::new(ConstPrf(0xFF)),
+        "hash-01" => Box::new(HashCollide(0, 1)),
+        "hash-02" => Box::new(HashCollide(1, 2)),
+        "hash-12" => Box::new(HashCollide(2, 3)),
         _ => Box::new(RealRandomness),
     }
 }
@@ -220,6 +252,12 @@ fn run_task(r: &Report, which: Which, prog: &Prog, owners: &[Owner], b: &Budget)
                     }
                     for t in b.tapes.iter() {
                         runs.push((11, *t));
+                    }
+                }
+                // hash-based joins: two of the three hash functions identical, on every input
+                if prog.class.starts_with("Join") {
+                    for t in ["hash-01", "hash-02", "hash-12"] {
+                        runs.push((11, t));
                     }
                 }
                 for (seed, tape) in runs {
@@ -463,6 +501,16 @@ pub fn generated_programs(r: &Report) -> Vec<Prog> {
                 }
                 progs.push(p);
                 r.count("programs_depth1", 1);
+                // output-party lists in non-ascending order (the reveal step does not depend on the program, so a
+                // reduced cross is enough): family 0 (thorough: every family) x 3 owner vectors x the 8 unsorted lists
+                if (fi == 0 || thorough) && leaves.len() < 4 {
+                    let mut p = recipe_prog(rec);
+                    let c = covering_owners(n_inputs);
+                    p.owners = Some(vec![c[0].clone(), c[1 % c.len()].clone(), c[4 % c.len()].clone()]);
+                    p.outs = Some(mpcx::output_lists_unsorted());
+                    progs.push(p);
+                    r.count("programs_depth1_unsorted_output_lists", 1);
+                }
             }
             // planner-relevant depth 2: first step multiplicative / conversion; for structured inputs: first step a getter
             let structured = leaves.len() >= 4 || leaves.iter().any(|l| matches!(l, Leaf::Input(t) if !(t.is_array() || t.is_scalar())));
